@@ -118,7 +118,7 @@ def tla(v) -> str:
 
 
 TOK_BASE = ["GET", "HEAD", "HTTP/", "gemini:", "/", "x", "0", " ", "\t", "+", "!", "$", "#", "_", "^", "\r"]
-FAMB_LINES = dict(M={"GET", "HEAD", "get", "x"}, S={" ", "\t"}, P={"/wap", "/wap/x", "/x", "x/wap", ""},
+FAMB_LINES = dict(M={"GET", "HEAD", "get", "x"}, S={" ", "\t"}, P={"/wap", "/wap/x", "/wapx", "/wap?x", "/x", "x/wap", ""},
                   V={"HTTP/1.0", "http/1.0", "xHTTP/", "0"})
 KINDS = {"AW", "AO", "XP", "XU", "NC", "BL"}
 
@@ -158,7 +158,7 @@ def configs(tier, shipped):
             lists=[list(shipped)] + other_lists(shipped, tier),
             tokens=TOK_BASE, na=3, terms_a={"\r\n", "\n", ""}, hdrs_a=[[]],
             famb=[dict(big, T={"\r\n", "\n"}, HK={"AW", "XP"}, HN=2),
-                  dict(M={"GET", "x"}, S={" "}, P={"/wap", "/x", ""}, V={"HTTP/1.0", "0"}, T={"\r\n"}, HK=KINDS, HN=3)],
+                  dict(M={"GET", "x"}, S={" "}, P={"/wap", "/wapx", "/x", ""}, V={"HTTP/1.0", "0"}, T={"\r\n"}, HK=KINDS, HN=3)],
             csel={"", "x"}, cfields={"", "+", "!", "$", "+x", "!x", "x", " ", "$x", "x+"}, cn=3,
             terms_c={"\r\n", ""}, hdrs_c=[[]])
         return {"main": main}
@@ -166,7 +166,7 @@ def configs(tier, shipped):
         lists=[list(shipped)] + other_lists(shipped, tier),
         tokens=TOK_BASE + ["/wap", "7"], na=4, terms_a={"\r\n"}, hdrs_a=[[]],
         famb=[dict(big, T={"\r\n", "\n"}, HK=KINDS, HN=2),
-              dict(M={"GET", "HEAD", "x"}, S={" "}, P={"/wap", "/wapx", "/x", ""}, V={"HTTP/1.0", "0"}, T={"\r\n", "\n"},
+              dict(M={"GET", "HEAD", "x"}, S={" "}, P={"/wap", "/wapx", "/wap?x", "/x", ""}, V={"HTTP/1.0", "0"}, T={"\r\n", "\n"},
                    HK=KINDS - {"NC"}, HN=4)],
         csel={"", "x", "/x"}, cfields={"", "+", "!", "$", "+x", "!x", "x", " ", "$x", "x+", "_", "^"}, cn=3,
         terms_c={"\r\n", "\n", ""}, hdrs_c=[[], ["AW", "XP"]])
